@@ -289,6 +289,7 @@ def m_unwrap(I, st, callee, argv, depth, t, dty):
             yield s2, payload
         else:
             s2.ev('panic', 'unwrap', span(t))
+            I.diverged.append(s2)
             # path ends (panic)
 
 
@@ -389,6 +390,7 @@ def m_is_some(I, st, callee, argv, depth, t, dty):
        'core::panicking::unreachable_display', 'core::panicking::panic_display')
 def m_panic(I, st, callee, argv, depth, t, dty):
     st.ev('panic', callee_key(callee), span(t))
+    I.diverged.append(st)
     return
     yield  # pragma: no cover
 
